@@ -185,7 +185,7 @@ theorem wrapRead_spec {sub : FileLike} {csub : List Byte} {k : Nat} {fpk : List 
   obtain ⟨s2, hst, hinv2, hpos2, hfr2⟩ := hstep
   obtain ⟨s3, hr, hinv3, hfr3⟩ := hraw s2 hinv2 hpos2
   refine ⟨s3.set i { s3 i with pos := (s i).pos + min (eof - (s i).pos) n }, ?_, by simp, ?_, ?_⟩
-  · simp only [wrapRead, heof, if_true, hts, if_false, htr]
+  · simp only [wrapRead, hts, if_false, htr]
     simp only [s1] at hst
     rw [hst]
     simp only [hr]
